@@ -37,37 +37,51 @@ TABLE_CONSTRUCTS = ["agentset_do_code", "agentset_shuffle_do_code", "agentset_ma
                     # extracted by harness/tables/registry.py (C02 builder), reused here
                     "agent_first_id", "deregister_order", "register_order", "remove_suppresses_keyerror"]
 ENUM_ALWAYS = False
-RULE = ("histories = one Model; top-level creation/removal/reference keeping of agents of 3 classes, program-made "
-        "AgentSets in arbitrary order, then 1-4 activations (do/shuffle_do/map by method name or callable, on "
-        "model.agents, agents_by_type[c] or a program-made set, or through groupby(...).do/map) whose per-agent scripts "
-        "do nothing / remove self / remove an earlier or later or dead agent (reference kept or not) / create agents / "
-        "drop or take references / raise / start a nested do, shuffle_do or map on any set (whose callbacks run a second script "
-        "and may raise too); 45% of the activations stay inside the statement's own quantifier (no raise, no nesting); "
-        "set.shuffle().do(...), copies nothing else refers to (copy.copy(set).do, set.select().do), groupby(result_type='list') and sets "
-        "mixing agents of a second model are driven beside shuffle_do; ALL one-act scripts over sets of size <= 3 (4 thorough, and 4 in the enumerator) are run first; "
-        "non-trivial = an activation that called >= 2 agents; distinct = SHA1 of the history")
+RULE = ("histories = one Model; agents of 3 classes (a plain one; Agent + a mixin after the framework base in the MRO whose instances are "
+        "FALSE in a boolean context; a subclass of that subclass with len() == 0) are created / removed / referenced by the program, "
+        "program-made AgentSets in arbitrary order, then 1-4 activations: do / shuffle_do / map / set.shuffle().do / the same on a copy "
+        "nothing else refers to (copy.copy(set), set.select()), on model.agents, agents_by_type[c] or a program-made set, or through "
+        "groupby(...).do/map (AgentSet groups, by method name or callable at both levels), groupby(result_type='list').do/map(callable), "
+        "groupby(...).count()/agg(); `method` is given as str, str subclass, function, callable object, functools.partial, by keyword, "
+        "or as an unknown method name (rejected call, history continues); every call also carries the keyword xv = None / float / inf / "
+        "str / nested tuple / bool / ints beyond 2^63 / list / dict / set / Decimal / Fraction / numpy scalars and arrays / bytes / empty "
+        "values, which must arrive as the same object, unchanged; per-agent scripts do nothing / remove self / remove an earlier, later or "
+        "dead agent (reference kept or not) / create agents / drop or take references / raise / start a nested do, shuffle_do or map "
+        "(inside try/except or not) on any set, up to 4 nesting levels; 45% of the activations stay inside the statement's own quantifier "
+        "(no raise, no nesting); populations of 0-9 agents, occasionally 20-30; ALL one-act scripts (incl. raise) over sets of size <= 3 "
+        "(4 thorough) and a nested-activation sweep run first; oracle-only streams: sets mixing agents of a second model, abandoned "
+        "iterators (dead references stay in the key list); non-trivial = an activation that called >= 2 agents; distinct = SHA1 of the history")
 TRUSTED_BASE = [
-    "Coq 8.16.1 kernel (coqc); vm_compute used for the non-vacuity examples and for evaluating the model in the correspondence",
-    "no axioms: Print Assumptions reports 'Closed under the global context' for every C04 theorem",
+    "Coq 8.16.1 kernel (coqc); vm_compute for the non-vacuity examples, the per-function code facts and the correspondence",
+    "no axioms: Print Assumptions reports 'Closed under the global context' for all 34 C04 theorems (coqchk: none)",
     "harness/tables/activation_code.py + harness/pyexpr.py (T1, code level): AgentSet.do/shuffle_do/map and GroupBy.do/map are "
-    "re-translated from the working tree on every run into act_fn records (branch condition and liveness guard as boolean functions, "
-    "iterated source, call form, argument forwarding, return); harness/tables/registry.py supplies the statement orders of "
-    "register_agent/deregister_agent",
+    "re-translated from the working tree on every run into act_fn records (branch condition and liveness guard as boolean functions "
+    "via pyexpr, iterated source: weak keyrefs snapshot / private shuffled copy / strong list, call form, *args/**kwargs forwarding, "
+    "return value), GroupBy.count/agg into grp_comp records, AgentSet.shuffle/groupby as statement skeletons modulo local names, "
+    "docstrings and formatting; the truth value of an agent is NOT accepted as a liveness test; harness/tables/registry.py (C02 builder) "
+    "supplies first id, KeyError suppression and the statement orders of register_agent/deregister_agent",
     "harness/props/C04.py driver+observer and the Gallina literal printer (T2, differential testing, not a proof)",
-    "Model/Activation.v is a hand transcription of AgentSet.do/shuffle_do/map, GroupBy.do/map, Agent.__init__/remove, "
-    "Model.register_agent/deregister_agent; CPython reference counting and WeakKeyDictionary are modelled "
-    "(alive = registered or referenced by the program or bound to the activation frame's local), not verified",
-    "random.shuffle is never modelled: the permutation it produced is recorded by a recording Random and passed to the model, "
-    "which checks that it is a permutation of the snapshot",
+    "Model/Activation.v (registry, weak sets, frame stack, executors of any nesting depth, list groups, count/agg) and "
+    "Model/ActivationCode.v (meaning of the generated records, statement-wise register/deregister) are hand-written; CPython reference "
+    "counting and WeakKeyDictionary are modelled (alive = registered, or referenced by the program, or bound in a running activation "
+    "frame, or held by a strong container), not verified",
+    "random.shuffle is never modelled: the permutation it produced is recorded by a recording Random and passed to the model, which checks "
+    "that it is a permutation of the snapshot; 'the order shuffle() would produce' is compared implementation against implementation "
+    "(cloned random.getstate()) on every shuffle_do / shuffle().do / nested shuffle_do",
     "Uint63 primitive hash only in scratch Cases files, never under a theorem",
 ]
 ASSUMPTIONS = [
-    "callbacks do not add/discard members of model-owned sets directly; activations nest to any depth in the model (up to 5 levels "
-    "generated); an exception raised by a callback leaves every running activation unless a callback catches it around a nested "
-    "activation (try: set.do(...) except Exception: pass)",
-    "sets mixing agents of two models are checked by the oracle only (the Gallina model has one registry)",
+    "callbacks do not add/discard members of model-owned sets directly and do not rebind set._agents",
+    "an exception raised by a callback leaves every running activation unless a callback catches it around a nested activation "
+    "(try: set.do(...) except Exception: pass); other try blocks inside callbacks contain nothing of Mesa's",
+    "below the outermost callback level nested activations are do / map only (a recorded shuffle permutation cannot be attached to an "
+    "act that may run several times)",
     "no reference cycles through agents (a cycle counts as 'the program still holds a reference')",
-    "agents removed from the model while the program keeps a reference MAY be called (the statement allows it); the model says they are",
+    "agents removed from the model while the program (its lists, a running callback of that agent, a GroupBy holding lists, a suspended "
+    "iterator) keeps a reference MAY be called (the statement allows it); the model says they are, the oracle does not demand it",
+    "sets mixing agents of two models and histories with an abandoned iterator are checked by the oracle only (the Gallina model has one "
+    "registry and no deferred removals)",
+    "all agent classes define the method used for by-name activation (an unknown method name is driven as a rejected call)",
 ]
 # the source functions Model/Activation.v transcribes (finer escalation than the per-class default)
 SOURCE_FUNCS = [("mesa/agent.py", "AgentSet.do"), ("mesa/agent.py", "AgentSet.shuffle_do"), ("mesa/agent.py", "AgentSet.map"),
@@ -136,6 +150,8 @@ def _rand_script(rng, order, ids_hint, density, level=None):
 def _rand_case(rng, big=False):
     ops = []
     n0 = rng.randint(0, 9 if big else 6)
+    if big and rng.random() < 0.04:
+        n0 = rng.randint(20, 30)      # a large population
     nid = 0
     live = []      # rough shadow (top level only): ids registered
     held = []
@@ -205,7 +221,8 @@ def _rand_case(rng, big=False):
                 kind = "shuffle_then_do"
             elif r2 < 0.22:
                 kind = "copy_" + kind
-            ops.append(["activate", kind, rng.choice(["name", "callable"]), sref, script, args, kwargs, script2])
+            ops.append(["activate", kind, rng.choice(["name", "callable", "name", "callable", "strsub", "callobj", "partial", "kwmethod", "badname"]),
+                        sref, script, args, kwargs, script2])
         # rough update of the shadow: count creations, forget removals (ids stay plausible targets)
         for _, acts in script + [x for sc in script2 for x in sc]:
             for a in acts:
@@ -296,6 +313,12 @@ def gen_cases(rng, tier):
                                                                                       ["rm", 1000 + rng.randint(1, nf), rng.random() < 0.5], ["nop"]])]]]
             ops.append(o)
         cases.append({"ops": ops})
+    # abandoned iterators (oracle only): dead references stay in the key list until the iterator goes away
+    for i in range(40 if tier == "quick" else 1000):
+        c = _rand_case(rng, big=False)
+        first = next((j for j, o in enumerate(c["ops"]) if o[0] in ("activate", "group", "grouplist")), len(c["ops"]))
+        c["ops"] = c["ops"][:first] + [["iterhold", _rand_sref(rng)]] + c["ops"][first:]
+        cases.append(c)
     return cases
 
 
@@ -322,7 +345,9 @@ def _env():
 
     ctx = {"cur": None}
 
-    def _make(name):
+    def _make(name, bases=None, extra=None):
+        extra = extra or {}
+
         def __init__(self, model):
             mesa.Agent.__init__(self, model)
             # the driver's name of the agent: unique_id in the main model, 1000 + unique_id in a second model
@@ -334,9 +359,20 @@ def _env():
         def act(self, *a, **k):
             return ctx["cur"].call(self, a, k)
 
-        return type(name, (mesa.Agent,), {"__init__": __init__, "act": act})
+        return type(name, bases or (mesa.Agent,), dict({"__init__": __init__, "act": act}, **extra))
 
-    classes = [_make(f"K{c}") for c in range(NCLS)]
+    class Falsy:
+        """a mixin placed AFTER the framework base in the MRO: these agents are False in a boolean context"""
+
+        def __bool__(self):
+            return False
+
+    # K0: a plain agent class; K1: Agent + mixin, instances are falsy (`if agent:` is not `agent is not None`);
+    # K2: a subclass of K1 (a subclass of a subclass of Agent) that also has len() == 0.  agents_by_type is by EXACT class.
+    k0 = _make("K0")
+    k1 = _make("K1", (mesa.Agent, Falsy))
+    k2 = _make("K2", (k1,), {"__len__": lambda self: 0})
+    classes = [k0, k1, k2]
 
     class RecRandom(random.Random):
         """random.Random that records what shuffle did (ids of the referents before and after)"""
@@ -360,6 +396,20 @@ def _env():
     gc.freeze()
     _ENV.update(ctx=ctx, classes=classes, RecRandom=RecRandom, mesa=mesa)
     return _ENV
+
+
+class _StrSub(str):
+    """a str subclass: isinstance(method, str) holds, the by-name branch must be taken"""
+
+
+class _CallObj:
+    """a callable object (not a function): the callable branch must be taken"""
+
+    def __init__(self, fn):
+        self.fn = fn
+
+    def __call__(self, agent, *a, **k):
+        return self.fn(agent, *a, **k)
 
 
 class _Boom(Exception):
@@ -404,6 +454,8 @@ class _Run:
         self.depth = 0           # 0 = program, d = inside a callback at nesting depth d-1
         self.pending = False     # an exception is travelling (raised and not caught by a callback)
         self.strong = set()      # ids held by a strong container of the program (GroupBy with lists)
+        self.strong_forever = set()   # ids held by an abandoned iterator of the program
+        self.iters = []
         self.models = []         # further models (their agents are named 1000 + unique_id)
         self.calls = []          # (uid, event index, args, kwargs, held_by_program) of the activation in progress
         self.nlog = []           # observation of nested activations
@@ -471,7 +523,7 @@ class _Run:
     def call(self, agent, args, kwargs):
         uid = agent._hid
         # a reference is held by the program's own list or by a callback of this very agent that is still running
-        held = any(o is agent for o in self.ext) or uid in self.active or uid in self.strong
+        held = any(o is agent for o in self.ext) or uid in self.active or uid in self.strong or uid in self.strong_forever
         self.calls.append((uid, len(self.events), args, kwargs, held))
         self.events.append(("call", uid))
         sc = self.levels[self.depth] if self.depth < len(self.levels) else {}
@@ -512,7 +564,7 @@ class _Run:
         nlevel = self.depth
         target = "act" if form else (lambda agent, *a, **k: self.call(agent, a, k))
         try:
-            res = getattr(s, akind)(target, tok=None)
+            res = getattr(s, akind)(target, tok=None, xv=None)
             del res
         except _Boom:
             raised = True
@@ -522,8 +574,8 @@ class _Run:
         site = f"nested-{akind}"
         perm = expected
         if akind == "shuffle_do":
-            if len(rec) == 1 and rec[0][0] == snap:
-                perm = rec[0][1]
+            if len(rec) == 1 and _living(rec[0][0]) == snap:
+                perm = _living(rec[0][1])
             if perm != expected or len(rec) != 1:
                 self.failures.append({"key": f"C04/{site}/order", "op": self.opi,
                                       "what": f"nested shuffle_do over {snap} recorded the shuffles {rec}; shuffle() from the same generator state gives {expected}"})
@@ -580,6 +632,12 @@ class _Run:
                             "what": f"agents_by_type[class {c}] is {got}; the registered agents of exactly that class are {want}"})
         del regs
         return out
+
+
+def _living(ids):
+    """recorded shuffles name a reference that was already dead when the list was made as -1 (possible only while an abandoned
+    iterator defers the removal of dead keys): such references are shuffled along but are no members"""
+    return [i for i in ids if i != -1]
 
 
 def _subseq(small, big):
@@ -669,10 +727,29 @@ def run_impl(case):
         gc.enable()
 
 
-def _args_ok(calls, args, kwargs, token):
+def _exotic(i):
+    """a value of a kind the callbacks of real models receive: passed as the keyword `xv`, must arrive as the SAME object, unchanged"""
+    import decimal
+    import fractions
+
+    import numpy as np
+
+    pool = [None, 0.1, float("inf"), "text", (1, (2, 3)), True, False, 2 ** 70, -(2 ** 63) - 1, [1, [2, 3]], {"a": [1]}, set(),
+            decimal.Decimal("0.1"), fractions.Fraction(1, 3), np.int64(3), np.float32(0.5), np.array(5), np.array([1, 2]), b"bytes",
+            0, 0.0, "", (), object()]
+    return pool[i % len(pool)]
+
+
+def _args_ok(calls, args, kwargs, token, xv=None, xv_before=None):
+    import copy
+
     for uid, _, a, k, _ in calls:
-        if tuple(a) != tuple(args) or set(k) != set(kwargs) | {"tok"} or any(k[n] != v for n, v in kwargs.items()) or k.get("tok") is not token:
+        if (tuple(a) != tuple(args) or set(k) != set(kwargs) | {"tok", "xv"} or any(k[n] != v for n, v in kwargs.items())
+                or k.get("tok") is not token or k.get("xv") is not xv):
             return uid, a, k
+    if isinstance(xv, (list, dict, set)) and xv_before is not None and xv != xv_before:
+        return -1, ("the caller's mutable argument was changed", xv_before, xv), {}
+    del copy
     return None
 
 
@@ -750,29 +827,53 @@ def _run_impl(env, case):
                     ev0 = len(run.events)
                     token = object()
                     kw = {f"k{j}": v for j, v in enumerate(kwargs)}
+                    import copy as _copy
+                    import functools
+
+                    xv = _exotic(opi + 3 * len(case["ops"]) + len(script))
+                    xv_before = _copy.deepcopy(xv) if isinstance(xv, (list, dict, set)) else None
                     rec = ctx["rec"] = []
-                    target = "act" if form == "name" else (lambda agent, *a, **k: run.call(agent, a, k))
+                    fn = (lambda agent, *a, **k: run.call(agent, a, k))
+                    target = {"name": "act", "strsub": _StrSub("act"), "callobj": _CallObj(fn), "partial": functools.partial(fn),
+                              "badname": "no_such_method"}.get(form, fn)
                     raised = False
                     res = None
+                    bad_exc = None
                     try:
                         if akind == "shuffle_then_do":
-                            res = s.shuffle().do(target, *args, tok=token, **kw)
+                            res = s.shuffle().do(target, *args, tok=token, xv=xv, **kw)
                         elif via is not None:
-                            import copy as _copy
-
-                            res = getattr(_copy.copy(s) if len(script) % 2 else s.select(), akind)(target, *args, tok=token, **kw)
+                            res = getattr(_copy.copy(s) if len(script) % 2 else s.select(), akind)(target, *args, tok=token, xv=xv, **kw)
+                        elif form == "kwmethod" and not args:
+                            res = getattr(s, akind)(method=target, tok=token, xv=xv, **kw)      # the same call, spelled with a keyword
                         else:
-                            res = getattr(s, akind)(target, *args, tok=token, **kw)
+                            res = getattr(s, akind)(target, *args, tok=token, xv=xv, **kw)
                     except _Boom:
                         raised = True
+                    except AttributeError as e:
+                        if form != "badname":
+                            raise
+                        bad_exc = e
+                    if form == "badname":
+                        # a rejected call: AttributeError from the first living member, nobody called, nothing changed - and the history goes on
+                        ctx["rec"] = None
+                        run.levels = []
+                        if run.calls or (bad_exc is None) != (len(snap) == 0):
+                            failures.append({"key": f"C04/{akind}/unknown-method-name", "op": opi,
+                                             "what": f"{akind}('no_such_method') over members {snap}: raised {type(bad_exc).__name__ if bad_exc else 'nothing'}, calls made: {[c[0] for c in run.calls]}"})
+                        del res, bad_exc
+                        obs.append(run.view())
+                        ops_for_model.append(["collect"])
+                        failures += run.by_type_failures(opi)
+                        continue
                     ctx["rec"] = None
                     calls = run.calls
                     run.levels = []
                     log = [c[0] for c in calls]
                     perm = expected
                     if shuffled:
-                        if len(rec) == 1 and rec[0][0] == snap:
-                            perm = rec[0][1]
+                        if len(rec) == 1 and _living(rec[0][0]) == snap:
+                            perm = _living(rec[0][1])
                             if perm != expected:
                                 failures.append({"key": f"C04/{akind}/order", "op": opi,
                                                  "what": f"{akind} shuffled the members {snap} into {perm}; shuffle() from the same generator state gives {expected}"})
@@ -786,10 +887,10 @@ def _run_impl(env, case):
                     if not raised and run.pending:
                         failures.append({"key": f"C04/{akind}/exception-swallowed", "op": opi,
                                          "what": f"a callback raised during {akind} but the call returned normally; calls: {log}"})
-                    bad = _args_ok(calls, args, kw, token)
+                    bad = _args_ok(calls, args, kw, token, xv, xv_before)
                     if bad:
                         failures.append({"key": f"C04/{akind}/args", "op": opi,
-                                         "what": f"{akind}(..., *{args}, **{kw}) called agent {bad[0]} with args {bad[1]} kwargs {sorted(bad[2])}"})
+                                         "what": f"{akind}(..., *{args}, **{kw}, xv={xv!r}) called agent {bad[0]} with args {bad[1]} kwargs {sorted(bad[2])}"})
                     if raised:
                         ret = [-37]
                     elif akind == "map":
@@ -814,7 +915,7 @@ def _run_impl(env, case):
                     full = list(args) + list(kwargs)
                     o = [-30]
                     for c in calls:
-                        o += [c[0]] + [int(x) for x in c[2]] + [int(c[3][n]) for n in sorted(c[3]) if n != "tok" and isinstance(c[3][n], int)]
+                        o += [c[0]] + [int(x) for x in c[2]] + [int(c[3][n]) for n in sorted(c[3]) if n not in ("tok", "xv") and isinstance(c[3][n], int)]
                     obs.append(o + ret + [-38] + run.nlog + run.view())
                     mop = ["activate", akind, form, sref, _model_script(script, run.nested_perms), full, [],
                            [_model_script(sc, run.nested_perms, lv + 1) for lv, sc in enumerate(scripts)], perm]
@@ -832,6 +933,9 @@ def _run_impl(env, case):
                     token = object()
                     kw = {f"k{j}": v for j, v in enumerate(kwargs)}
                     gb = s.groupby(f"g{m}") if byform == "attr" else s.groupby(lambda a: a._hid % m)
+                    xv = _exotic(opi + len(script))
+                    import copy as _copy2
+                    xvb = _copy2.deepcopy(xv) if isinstance(xv, (list, dict, set)) else None
                     keys = list(gb.groups.keys())
                     want_groups = []
                     for a in snap:
@@ -852,9 +956,9 @@ def _run_impl(env, case):
                     try:
                         if outer.endswith("-callable"):
                             inner = (lambda agent, *a, **k: run.call(agent, a, k))
-                            res = getattr(gb, outer[:-9])(lambda grp, *a, **k: getattr(grp, akind)(inner, *a, **k), *args, tok=token, **kw)
+                            res = getattr(gb, outer[:-9])(lambda grp, *a, **k: getattr(grp, akind)(inner, *a, **k), *args, tok=token, xv=xv, **kw)
                         else:
-                            res = getattr(gb, outer)(akind, "act", *args, tok=token, **kw)
+                            res = getattr(gb, outer)(akind, "act", *args, tok=token, xv=xv, **kw)
                     except _Boom:
                         raised = True
                     outer = outer.split("-")[0]
@@ -869,6 +973,7 @@ def _run_impl(env, case):
                         nvis = 1 + [k for k, _ in want_groups].index(log[-1] % m) if (log[-1] % m) in [k for k, _ in want_groups] else nvis
                     if akind == "shuffle_do":
                         # one recorded shuffle per visited group, in group order
+                        rec = [(_living(b), _living(a)) for b, a in rec]
                         ok = len(rec) == nvis and all(set(b) <= set(g) and len(set(b)) == len(b) for (b, _), (_, g) in zip(rec, want_groups))
                         if ok:
                             perms = [a for _, a in rec]
@@ -886,7 +991,7 @@ def _run_impl(env, case):
                     if not raised and run.pending:
                         failures.append({"key": f"C04/{site}/exception-swallowed", "op": opi,
                                          "what": f"a callback raised during GroupBy.{outer}({akind!r}) but the call returned normally; calls: {log}"})
-                    bad = _args_ok(calls, args, kw, token)
+                    bad = _args_ok(calls, args, kw, token, xv, xvb)
                     if bad:
                         failures.append({"key": f"C04/{site}/args", "op": opi,
                                          "what": f"GroupBy.{outer}({akind!r}, 'act', *{args}, **{kw}) called agent {bad[0]} with args {bad[1]} kwargs {sorted(bad[2])}"})
@@ -957,7 +1062,8 @@ def _run_impl(env, case):
                     raised = False
                     res = None
                     try:
-                        res = getattr(gb, outer)(lambda grp, *a, **k: [run.call(agent, a, k) for agent in grp], *args, tok=token, **kw)
+                        xv = _exotic(opi + 7)
+                        res = getattr(gb, outer)(lambda grp, *a, **k: [run.call(agent, a, k) for agent in grp], *args, tok=token, xv=xv, **kw)
                     except _Boom:
                         raised = True
                     calls = run.calls
@@ -974,7 +1080,7 @@ def _run_impl(env, case):
                     if raised != (t_raise is not None) or (raised and len(log) != len(upto)):
                         failures.append({"key": f"C04/{site}/exception-swallowed" if not raised else f"C04/{site}/called-after-exception", "op": opi,
                                          "what": f"a callback raised={t_raise is not None}, GroupBy.{outer} raised={raised}; calls: {log}"})
-                    bad = _args_ok(calls, args, kw, token)
+                    bad = _args_ok(calls, args, kw, token, xv)
                     if bad:
                         failures.append({"key": f"C04/{site}/args", "op": opi,
                                          "what": f"GroupBy.{outer}(callable, *{args}, **{kw}) handed args {bad[1]} kwargs {sorted(bad[2])} on"})
@@ -1025,6 +1131,20 @@ def _run_impl(env, case):
                             o += [int(k), int(v)] if isinstance(v, int) else [int(k), -99]
                     del gb
                     obs.append(o + run.view())
+            elif kind == "iterhold":
+                # the program starts iterating over a set and abandons the iterator after the first agent: the suspended
+                # generator keeps that agent alive and keeps the WeakKeyDictionary in "iterating" mode (removals of dead keys are
+                # deferred, keyrefs() snapshots then contain DEAD references).  Oracle only.
+                s = run.resolve(op[1])
+                if s is not None:
+                    it = iter(s)
+                    a = next(it, None)
+                    if a is not None:
+                        run.strong_forever.add(a._hid)
+                    del a
+                    run.iters.append(it)
+                model_ok = False
+                obs.append([-2])
             elif kind == "foreignset":
                 # a second model with n agents and a program-made set mixing its agents with ours (oracle only: the Gallina
                 # model has one registry).  ["foreignset", n, [ids in set order; ids >= 1001 name the foreign agents]]
@@ -1153,7 +1273,7 @@ def coq_case(case):
             out.append(f"OGroupList {_sref(sref)} {L.z(m if ok else 0)} {_script(script)} {_scripts_lit(scripts)} {L.zlist(list(args) + list(kwargs))}")
         elif k in ("groupcount", "groupagg"):
             out.append(f"{'OGroupCount' if k == 'groupcount' else 'OGroupAgg'} {_sref(op[2])} {L.z(op[3] if op[3] in (1, 2, 3) else 0)}")
-        elif k == "foreignset":
+        elif k in ("foreignset", "iterhold"):
             out.append("OCollect")   # never evaluated: histories with a second model are oracle-only
         else:
             raise ValueError(k)
@@ -1177,6 +1297,8 @@ def op_kinds(case):
             out.append(f"groupby-list.{op[1]}/{op[2]}")
         elif op[0] == "foreignset":
             out.append("second-model-set")
+        elif op[0] == "iterhold":
+            out.append("abandoned-iterator")
         elif op[0] in ("groupcount", "groupagg"):
             out.append(f"groupby.{op[0][5:]}/{op[1]}")
         elif op[0] == "act":
@@ -1200,17 +1322,25 @@ def nontrivial(case):
     return False
 
 
-LEVEL_TEXT = ("Machine-checked Coq theorems over a Gallina transcription of AgentSet.do/shuffle_do/map, GroupBy.do/map and the "
-              "registry they run on, with CPython reference counting explicit (registered / referenced by the program / bound to "
-              "the activation frame): for ALL states satisfying the registry invariant, ALL callback scripts and ALL shuffle "
-              "outcomes, one activation calls no agent twice, calls only members of the snapshot, in set order (in the shuffled "
-              "order for shuffle_do), calls exactly those alive at their turn - in particular every member still registered at "
-              "its turn, and never one that is dead - never calls an agent created during the call, and leaves the relative "
-              "order of the set untouched; agents_by_type[c] is the registry filtered by exact class in every reachable state; "
-              "shuffle_do equals shuffle() followed by do() on the same outcome; a raising callback ends the loop at once "
-              "(log = prefix + raiser); nested activations keep every invariant.  The model is tied to the code by differential evaluation on all one-act scripts over "
-              "small sets and on random churn histories (T2); an independent oracle states the property on the implementation.")
-LEVEL_NOTE = ("Theorems are about the model; CPython's refcounting/weakref semantics are modelled, not verified; 'shuffle_do visits "
-              "in the order shuffle() would produce' is checked implementation-against-implementation. No axioms.")
-TECHNIQUE = "Coq proof (induction over visiting order / op lists, state invariants; closed under global context) + vm_compute correspondence + oracle"
+LEVEL_TEXT = ("34 machine-checked Coq theorems (all closed under the global context, 17 non-vacuity examples) over a Gallina transcription of "
+              "AgentSet.do/shuffle_do/map, shuffle().do, GroupBy.do/map/count/agg (AgentSet and list groups) and the registry they run on, "
+              "with CPython reference counting explicit. For ALL histories of ops, ALL callback scripts (incl. raising, nesting to any "
+              "depth, catching) and ALL shuffle outcomes: the registry invariant holds, model.agents is the registry and agents_by_type[c] "
+              "the registry filtered by exact class; one activation calls no agent twice, only members of the snapshot, in set order (in "
+              "the shuffled order for shuffle_do, which equals shuffle() followed by do()), exactly those whose turn is reached alive - "
+              "every member still registered at its turn, never a dead one, never one created during the call - and leaves the order of "
+              "every set untouched; an exception ends the loop at once (log = prefix + raiser), a caught one stays inside the callback, "
+              "the frame stack is restored; group activations visit the groups in first-seen key order, each member once; list groups "
+              "reach every member even if removed; count() partitions the set. Code-level T1: the functions are re-translated from the "
+              "working tree on every run and bridge lemmas (proved once for every record passing a decidable check over all boolean "
+              "inputs) show that the translated do/shuffle_do/map/GroupBy.do/map/count/agg and the statement-wise register/deregister "
+              "ARE the model's functions; the headline theorems are restated about the translated code. The model is tied to the "
+              "implementation by differential evaluation (T2) and an independent oracle states the property on the implementation.")
+LEVEL_NOTE = ("Theorems are about the model; CPython's refcounting/weakref semantics are modelled, not verified; which permutation "
+              "random.shuffle picks is an input of the model and is compared implementation-against-implementation; sets mixing two "
+              "models and abandoned iterators are oracle-only; GroupBy.do/map on list groups is modelled for the callable form only "
+              "(lists have no methods). No defect of the unchanged tree was found in this area (no fix, no known finding). No axioms.")
+TECHNIQUE = ("Coq proof (induction over visiting order / op lists / nesting depth, state invariants, executor-generic sections; closed under "
+             "global context) + code-level T1 (pyexpr translation into records, decidable checks, bridge lemmas) + vm_compute correspondence "
+             "+ independent oracle with recorded shuffle outcomes")
 DESIGN_REF = "DESIGN.md section 4, C04"
